@@ -577,10 +577,12 @@ class Share:
         os.makedirs(self.wd, exist_ok=True)
         self.mods = []            # (module name, [progs])
         allp = self.fixed + self.rnd
-        per = 40
+        per = 10 if self.quick else 40      # quick: small modules built in parallel (wall time)
         for k in range(0, len(allp), per):
             self.mods.append(("c37_share%d" % (k // per), allp[k:k + per]))
         self.built = {}
+        self.runs = {}
+        self.pending = []
         self.err_res = None
         self.exc = None
         self.thread = threading.Thread(target=self._build)
@@ -589,12 +591,18 @@ class Share:
     def _build(self):
         try:
             specs = [dict(name=m, source=src_module(ps), workdir=self.wd,
-                          cflags=["-O1", "-fopenmp", "-fwrapv"], ldflags=["-fopenmp"]) for m, ps in self.mods]
+                          cflags=["-O0" if self.quick else "-O1", "-fopenmp", "-fwrapv"], ldflags=["-fopenmp"]) for m, ps in self.mods]
             t = threading.Thread(target=self._errors)
             t.start()
-            res = cybuild.build_many(specs, jobs=4)
+            res = cybuild.build_many(specs, jobs=5)
             for (m, ps), (so, e) in zip(self.mods, res):
                 self.built[m] = (so, e)
+            # the compiled functions are called here too (nothing of it depends on the model)
+            ths = [threading.Thread(target=self._run_module, args=(m, ps)) for m, ps in self.mods if self.built[m][0]]
+            for th in ths:
+                th.start()
+            for th in ths:
+                th.join()
             t.join()
         except BaseException as e:      # reported by evaluate()
             self.exc = e
@@ -646,6 +654,7 @@ class Share:
             for p in ps:
                 self._eval_clauses(p, pragmas, cinfo.get(p.name))
             self._eval_runs(mname, ps, cinfo, model)
+        self._flush_model(model)
 
     def _eval_errors(self, cinfo):
         ctx = self.ctx
@@ -691,20 +700,31 @@ class Share:
         if (info[2] != "X") != wf_expected:
             ctx.corr_break("share:well-formedness", inp, {"generator says sound form": wf_expected}, {"model region_wf": info[2]})
 
+    def _run_module(self, mname, ps):
+        try:
+            calls, meta = [], []
+            for p in ps:
+                for (start, stop, step, nt, chunk, thr) in call_plan(p, self.quick, None):
+                    idxs = list(range(start, stop, step))
+                    span = abs(stop - start)
+                    init = list(p.init)
+                    args = [start, stop, step, 1 if step > 0 else -1, span, nt, chunk, thr] + \
+                           [float(z) if (p.ftype and i > 0) else z for i, z in enumerate(init)]
+                    calls.append([p.name, args])
+                    meta.append((p, idxs, init, (start, stop, step, nt, chunk, thr)))
+            r = cybuild.run_script(WORKER, self.wd, {"module": mname, "calls": calls}, timeout=1500, name="run_%s.py" % mname,
+                                   extra_env={"OMP_WAIT_POLICY": "passive", "GOMP_SPINCOUNT": "0", "OMP_DYNAMIC": "false"})
+            self.runs[mname] = (calls, meta, r)
+        except BaseException as e:
+            self.runs[mname] = e
+
     def _eval_runs(self, mname, ps, cinfo, model):
         ctx = self.ctx
-        calls, meta = [], []
-        for p in ps:
-            for (start, stop, step, nt, chunk, thr) in call_plan(p, self.quick, ctx.rng):
-                idxs = list(range(start, stop, step))
-                span = abs(stop - start)
-                init = list(p.init)
-                args = [start, stop, step, 1 if step > 0 else -1, span, nt, chunk, thr] + \
-                       [float(z) if (p.ftype and i > 0) else z for i, z in enumerate(init)]
-                calls.append([p.name, args])
-                meta.append((p, idxs, init, (start, stop, step, nt, chunk, thr)))
-        r = cybuild.run_script(WORKER, self.wd, {"module": mname, "calls": calls}, timeout=1500, name="run_%s.py" % mname,
-                               extra_env={"OMP_WAIT_POLICY": "passive", "GOMP_SPINCOUNT": "0", "OMP_DYNAMIC": "false"})
+        got_run = self.runs.get(mname)
+        if not isinstance(got_run, tuple):
+            ctx.corr_break("share:run-thread", mname, repr(got_run)[:400], "module runs")
+            return
+        calls, meta, r = got_run
         outs = [json.loads(l) for l in r["out"].splitlines() if l.startswith("{")]
         if len(outs) < len(calls):
             inp = {"module": mname, "call": calls[len(outs)] if len(outs) < len(calls) else None}
@@ -748,6 +768,13 @@ class Share:
             lines.append("run %d %d %s %s %s %s" % (p.w, 1 if p.sg else 0, ",".join(str(int(z)) for z in init), toki, tokc,
                                                     tok_region(p)))
             keep.append((p, inp, got, exp, vis, owners))
+        self.pending.append((lines, keep, cinfo))
+
+    def _flush_model(self, model):
+        ctx = self.ctx
+        lines = [l for ls, _, _ in self.pending for l in ls]
+        keep = [k for _, ks, _ in self.pending for k in ks]
+        cinfo = self.pending[0][2] if self.pending else {}
         res = model.batch(lines)
         for (p, inp, got, exp, vis, owners), line in zip(keep, res):
             mm = re.match(r"P=(\S+) S=(\S+)$", line)
